@@ -4,19 +4,22 @@
 # and runs the check. Exit 0 = held, 1 = VIOLATION line(s) printed, 2 = harness error.
 # Development: MC_DEV=1 builds only ./cmd/mc-<id> (one check) so that a package another
 # author is editing cannot break this build; MC_WORKERS=n caps the worker processes.
+# The tree the script lives in is the verification root (so a snapshot of /verif made by
+# `vp run` works on its own findings/evidence/replays and does not disturb /verif).
 set -u
 ID="$1"; TIER="${2:-quick}"; shift; shift || true
+ROOT=$(dirname "$(readlink -f "$0")")
 export GOFLAGS=-mod=mod GOPROXY=off GOSUMDB=off GOTOOLCHAIN=local
 export GOCACHE=/verif/.cache/go-build
-export VERIF_DIR=/verif
-mkdir -p /verif/.cache /verif/.bin
-cd /verif/mc || exit 2
+export VERIF_DIR="$ROOT" MC_SRC="$ROOT/mc"
+mkdir -p /verif/.cache "$ROOT/.bin"
+cd "$ROOT/mc" || exit 2
 cmp -s /repo/go.sum go.sum || cp /repo/go.sum go.sum
-PKG=./cmd/mc; BIN=/verif/.bin/mc
+PKG=./cmd/mc; BIN=$ROOT/.bin/mc
 lid=$(echo "$ID" | tr 'A-Z' 'a-z')
-if [ "${MC_DEV:-}" = 1 ] && [ -d "./cmd/mc-$lid" ]; then PKG=./cmd/mc-$lid; BIN=/verif/.bin/mc-$lid; fi
-if ! go build -tags verif -o "$BIN.$$" "$PKG" 2>/verif/.cache/build-$ID.log; then
-  echo "HARNESS-ERROR: build failed"; cat /verif/.cache/build-$ID.log; rm -f "$BIN.$$"; exit 2
+if [ "${MC_DEV:-}" = 1 ] && [ -d "./cmd/mc-$lid" ]; then PKG=./cmd/mc-$lid; BIN=$ROOT/.bin/mc-$lid; fi
+if ! go build -tags verif -o "$BIN.$$" "$PKG" 2>"$ROOT/.bin/build-$ID.log"; then
+  echo "HARNESS-ERROR: build failed"; cat "$ROOT/.bin/build-$ID.log"; rm -f "$BIN.$$"; exit 2
 fi
 mv -f "$BIN.$$" "$BIN"
 exec "$BIN" check "$ID" --tier "$TIER" "$@"
